@@ -103,7 +103,10 @@ _TS = re.compile(r"=\s*TS\s+\d+\s+(\d+)")
 
 
 def judge_text(item):
-    cid, text = item
+    cid, text = item[0], item[1]
+    if len(item) > 2:
+        import chartgen as _cg
+        _cg._AMBIENT["pin"] = item[2]          # (the third element pins the ambient configuration for this text; otherwise it cycles)
     maxdigits = max([len(m.group(0).lstrip("0") or "0") for m in _NUM.finditer(text)] or [0])
     tsexp = max([int(m.group(1)) for m in _TS.finditer(text) if len(m.group(1)) < 6] or [0])
     rec = {"id": cid, "props": ["C18"], "maxdigits": maxdigits, "tsexp": tsexp, "outcome": "", "rendered": ""}
@@ -228,6 +231,25 @@ def run(ctx):
                 items.append((f"{bname}c-{cuts}", "\n".join(base[:p_] + [v] + base[p_ + 1:]) + "\n", ["cut", p_ + 1, v], bname))
                 cuts += 1
     ctx.extra["cut_lines"] = cuts
+    # whole sections duplicated, renamed into each other and moved (what a merge or a copy-and-paste leaves behind), parsed under
+    # EVERY ambient configuration (default, debug logging, coarse decimal contexts)
+    pinned = []
+    for bname, base in bases:
+        starts = [k for k, ln in enumerate(base) if ln.startswith("[")] + [len(base)]
+        secs = [base[a:b] for a, b in zip(starts, starts[1:])]
+        variants = []
+        for a in range(len(secs)):
+            for b in range(len(secs) + 1):
+                variants.append(secs[:b] + [secs[a]] + secs[b:])                               # section a copied to position b
+            for c in range(len(secs)):
+                if c != a:
+                    variants.append(secs[:c] + [[secs[a][0]] + secs[c][1:]] + secs[c + 1:])     # section c under section a's header
+        for k, v in enumerate(variants):
+            text = "\n".join(ln for sec in v for ln in sec) + "\n"
+            for mode in range(5):
+                pinned.append((f"{bname}d-{k}-{mode}", text, mode))
+                items.append((f"{bname}d-{k}-{mode}", text, ["sections", k, mode], bname))
+    ctx.extra["duplicated_section_files"] = len(pinned)
     # files assembled from arbitrary fragments (TLC -simulate)
     fcfg = f"SPECIFICATION Spec\nCONSTANTS\n  NFrag = {len(FRAGMENTS)}\n  MaxLines = 40\nINVARIANT Bounded\nINVARIANT Emit\nCHECK_DEADLOCK FALSE\n"
     fbeh = _simulate(ctx, "MC_Fragments", fcfg, "fragments", ctx.pick(2500, 60000), 42)
@@ -278,7 +300,8 @@ def run(ctx):
                  f"[{r.choice(['ExpertSingle', 'HardDrums', 'EasyGHLBass'])}]", "{"] + tr + ["}"]
         items.append((f"N-{k}", "\n".join(lines) + "\n", None, "numeric corners"))
     meta = {it[0]: it for it in items}
-    recs = par.pmap(judge_text, [(it[0], it[1]) for it in items], chunk=300)
+    pin = {p_[0]: p_[2] for p_ in pinned}
+    recs = par.pmap(judge_text, [((it[0], it[1], pin[it[0]]) if it[0] in pin else (it[0], it[1])) for it in items], chunk=300)
     ctx.evaluations += len(recs)
     classes = {}
     for rec in recs:
